@@ -80,6 +80,7 @@ def _worker(args):
         item['stats'] = res.get('stats', {})
         item['sim_time'] = res.get('sim_time', 0.0)
         item['cfg'] = res.get('cfg')
+        item['cell'] = res.get('cell')
         if res.get('violations'):
             item['violations'] = res['violations']
             item['case'] = case
@@ -414,6 +415,9 @@ def write_evidence(mod, tier, seed, good, viol, known_lines, reported, wall,
             'simulated_seconds': round(sim_time, 3),
             'counters': stats,
             'configurations': cfgs,
+            'grid_cells_covered': len({r['cell'] for r in good
+                                       if r.get('cell') is not None}),
+            'grid_size': getattr(mod, 'GRID', None),
             'violating_runs': len(viol),
             'known_findings_seen': known_lines,
             'new_violations': [s for s, _ in reported],
